@@ -32,6 +32,9 @@ def core_check(prop, tier, seed, replay):
         return T.replay(prop, _family_by_name(fam), replay)
     from . import fam_apps as A
     pairs = [(CORE, T.run_family(CORE, tier, seed)), (A.FAM, T.run_family(A.FAM, tier, seed))]
+    if prop in ("C01", "C13"):
+        from . import fam_more as M
+        pairs += [(M.EXPIRY_RELAY, T.run_family(M.EXPIRY_RELAY, tier, seed))]
     if prop == "C19":
         from . import fam_more as M
         pairs += [(A.FAM_BIG, T.run_family(A.FAM_BIG, tier, seed)), (M.GENESIS, T.run_family(M.GENESIS, tier, seed)),
@@ -42,7 +45,7 @@ def core_check(prop, tier, seed, replay):
 def _family_by_name(name):
     from . import fam_apps as A
     from . import fam_more as M
-    for f in (CORE, A.FAM, A.FAM_BIG, M.GENESIS, M.GENESIS_APPS, M.EXPIRY):
+    for f in (CORE, A.FAM, A.FAM_BIG, M.GENESIS, M.GENESIS_APPS, M.EXPIRY, M.EXPIRY_RELAY):
         if f["name"] == name:
             return f
     return CORE
